@@ -296,7 +296,7 @@ SPEC = {
     "explanation": "Oracle: serialisation must not raise; for every continuation event the normalised outgoing events of the restored state equal those of the live state (an exception on one side only is a difference); "
                    "the aged run equals the un-aged run; decode(encode(v)) equals v with the same types and preserved dict aliasing, also through real JSON text (checked at replay).",
     "conditions": [
-        {"fn": "continues_same", "tiers": ("quick",), "slices": _sl(SER, 2, (0, 1)), "tcond": 900, "tpath": 60, "bound": "catalogue prefix + L=2, cut after 0 or 1 events",
+        {"fn": "continues_same", "tiers": ("quick",), "slices": _sl([n for n in SER if n not in ("conflict", "loop_counter", "await_or", "two_children")], 2, (0, 1)), "tcond": 900, "tpath": 60, "bound": "catalogue prefix + L=2, cut after 0 or 1 events",
          "smoke": [{"slice": {"prog": "vars_kinds", "L": 3}, "args": dict(cut=1, s0=1, s1=2, s2=3, s3=0, p0=0, p1=0, p2=0, p3=0, c0=0, c1=0)},
                    {"slice": {"prog": "vars_regex", "L": 2}, "args": dict(cut=1, s0=1, s1=2, s2=0, s3=0, p0=0, p1=0, p2=0, p3=0, c0=0, c1=0)},
                    {"slice": {"prog": "vars_cmp", "L": 2}, "args": dict(cut=0, s0=2, s1=1, s2=0, s3=0, p0=0, p1=0, p2=0, p3=0, c0=0, c1=0)},
